@@ -21,6 +21,10 @@ Step(e) ==
                       \o (IF e.panic # "" THEN <<[diag |-> "panic", scenario |-> e.scenario, msg |-> e.panic]>> ELSE <<>>)
                       \o (IF e.gafter > e.gbefore THEN <<[diag |-> "goroutine-outlives-stop", scenario |-> e.scenario,
                                                           before |-> e.gbefore, after |-> e.gafter]>> ELSE <<>>)
+                      \* SmartStop!QuietAfterStop: no background work is left running when Stop has returned
+                      \o (IF Has(e, "bgafter") /\ e.bgafter THEN <<[diag |-> "background-work-after-stop", scenario |-> e.scenario]>> ELSE <<>>)
+                      \o (IF Has(e, "note") /\ e.note # "" /\ e.equal /\ e.scenario = "smart-stop-inflight"
+                          THEN <<[diag |-> "scenario-setup-failed", scenario |-> e.scenario, note |-> e.note]>> ELSE <<>>)
                       \o (IF ~e.equal THEN <<[diag |-> "parallel-differs-from-sequential", scenario |-> e.scenario, note |-> e.note]>> ELSE <<>>)
          IN IF items # <<>>
             THEN /\ PrintT(<<"BAD", ToJson([case |-> e.case, at |-> l, cfg |-> [x |-> 0], items |-> items])>>)
